@@ -1,5 +1,7 @@
 """C18 — feature grammars: unification is the glb and membership respects unification."""
 import itertools
+import json
+import random
 import cfglib
 import cfg_engine
 from cfglib import CfgInterner, coq_cfg
@@ -21,7 +23,7 @@ LEVEL_TEXT = ("Partial + correspondence: FCFG.contains is compared with the exac
               "with shared variables are compared with a second model and checked for order independence, without theorem. No theorem about the Earley loop.")
 LEVEL_NOTE = "Trusted: Coq kernel; Python harness incl. the instantiation of feature grammars; hand-written unification model validated by correspondence."
 RULE = ("feature-free FCFGs from random grammars (eps, ambiguity, left recursion) x words up to length 3-4 and sampled members; flat-feature FCFGs (two features, "
-        "two values, agreement variables shared between head and body) x words; pairs of tree-shaped feature structures (depth <= 3, <= 3 features, <= 3 values) "
+        "two values, agreement variables shared between head and body; families: specific vs under-specified analysis of one span, nullable agreement, shared unknown vs specific, first constituent with a specific and an unbound analysis) x words; pairs of tree-shaped feature structures (depth <= 3, <= 3 features, <= 3 values) "
         "and pairs with shared variables x unify in both orders")
 EXPLANATION = "contains vs exact membership of the instantiated grammar; trees certified; unification vs Gallina model."
 
@@ -63,6 +65,9 @@ def rand_feature_grammar(rng, force=None):
                 vs.append(v)
         nested = rng.random() < 0.7 or bool(force)
         mid = rng.random() < 0.5
+        # the under-specified analysis either lacks the feature or carries it with an unbound variable (derived from a value already
+        # drawn, so that the random stream of the other cases is unchanged)
+        gen_fs = {f: "?z"} if val == DOM[0] else {}
         extra = [{"head": "P", "hfs": {f: "?x"}, "body": [["V", "Q", {f: "?x"}]], "nested": nested},
                  {"head": "Q", "hfs": {f: val}, "body": [["T", t, {}]], "nested": nested},
                  {"head": base["start"], "hfs": {}, "nested": nested,
@@ -70,9 +75,9 @@ def rand_feature_grammar(rng, force=None):
         if mid:     # the under-specified analysis goes through an intermediate category (it is completed later)
             if "M" not in vs:
                 vs.append("M")
-            extra += [{"head": "Q", "hfs": {}, "body": [["V", "M", {}]], "nested": nested}, {"head": "M", "hfs": {}, "body": [["T", t, {}]], "nested": nested}]
+            extra += [{"head": "Q", "hfs": gen_fs, "body": [["V", "M", {}]], "nested": nested}, {"head": "M", "hfs": {}, "body": [["T", t, {}]], "nested": nested}]
         else:
-            extra += [{"head": "Q", "hfs": {}, "body": [["T", t, {}]], "nested": nested}]
+            extra += [{"head": "Q", "hfs": gen_fs, "body": [["T", t, {}]], "nested": nested}]
         rng.shuffle(extra)
         prods = prods + extra
         profile += "+specific/general"
@@ -103,6 +108,25 @@ def rand_feature_grammar(rng, force=None):
         rng.shuffle(extra)
         prods = (extra + prods) if rng.random() < 0.5 else (prods + extra)
         profile += "+shared-unknown-vs-specific"
+    # a first constituent with a specific and an unbound analysis over the same word, predicted while the agreement variable is still
+    # unbound; the second constituent needs the other value. (Own generator seeded from the grammar drawn so far: the random stream of the
+    # other families is unchanged.)
+    r2 = random.Random("first-unbound|" + json.dumps(prods, sort_keys=True))
+    if r2.random() < 0.3 or force == "specific/general":
+        f = r2.choice(FEATS)
+        val, other = r2.sample(DOM, 2)
+        for v in ("X2", "Y2"):
+            if v not in vs:
+                vs.append(v)
+        ts = base["terms"]
+        nested2 = r2.random() < 0.5
+        extra = [{"head": base["start"], "hfs": {}, "body": [["V", "X2", {f: "?a"}], ["V", "Y2", {f: "?a"}]], "nested": nested2},
+                 {"head": "X2", "hfs": {f: val}, "body": [["T", ts[0], {}]], "nested": nested2},
+                 {"head": "X2", "hfs": {f: "?z"}, "body": [["T", ts[0], {}]], "nested": nested2},
+                 {"head": "Y2", "hfs": {f: other}, "body": [["T", ts[-1], {}]], "nested": nested2}]
+        r2.shuffle(extra)
+        prods = (extra + prods) if r2.random() < 0.5 else (prods + extra)
+        profile += "+first-unbound-vs-specific"
     return {"vars": vs, "terms": base["terms"], "start": base["start"], "fprods": prods, "profile": profile, "prods": base["prods"]}
 
 
